@@ -16,6 +16,7 @@ mod equil;
 mod igcp;
 mod mspec;
 mod red;
+mod rr;
 mod thermo;
 mod util;
 mod virial;
@@ -36,6 +37,7 @@ fn main() {
         "c18" => c18::run(&args),
         "c19" => c19::run(&args),
         "c20" => c20::run(&args),
+        "rr" => rr::run(&args),
         "thermo" => thermo::run(&args),
         "igcp" => igcp::run(&args),
         "equil" => equil::run(&args),
